@@ -396,7 +396,6 @@ func checkRawMapChain(res *Result, p *Pub, rule string) {
 	res.Count("C16-R8 origins of the raw activity map", origins, 1)
 }
 
-
 // collapsePhi: a merge all of whose incoming values are one and the same value
 // (ignoring itself) denotes that value.
 func collapsePhi(v ssa.Value, depth int) ssa.Value {
